@@ -345,6 +345,7 @@ impl BytecodeBuilder {
                 | Op::Void { .. }
                 | Op::GetVar { .. }
                 | Op::TryGetVar { .. }
+                | Op::TryGetLocalVar { .. }
                 | Op::SetVar { .. }
                 | Op::DeclareVar { .. }
                 | Op::DeclareVarHoisted { .. }
